@@ -24,6 +24,7 @@ static unsigned long finish(const TestFailure& f, char* out, unsigned long cap) 
 // A stack object would end in a call of the derived class' destructor, which clang emits as a call through a
 // bitcast of TestFailure::~TestFailure; the translator treats that as an indirect call outside the closed world.
 
+class MarkerProbe;
 extern "C" {
 void h_init(void)
 {
@@ -68,6 +69,18 @@ unsigned long h_msg_bits(u64 expected, u64 actual, u64 mask, unsigned long byteC
 unsigned long h_msg_doubles(double expected, double actual, double threshold, char* out, unsigned long cap)
 {
     { static DoublesEqualFailure f(shell_, "f.cpp", 3, expected, actual, threshold, ""); return finish(f, out, cap); }
+}
+// the marker renderer on its own (a protected member: reached through a subclass)
+class MarkerProbe : public TestFailure
+{
+public:
+    MarkerProbe(UtestShell* t) : TestFailure(t, "f.cpp", 3) {}
+    SimpleString marker(const SimpleString& actual, size_t offset, size_t position) { return createDifferenceAtPosString(actual, offset, position); }
+};
+unsigned long h_marker(const char* actual, unsigned long offset, unsigned long position, char* out, unsigned long cap)
+{
+    static MarkerProbe f(shell_);
+    return copyOut(f.marker(actual, offset, position), out, cap);
 }
 // where the failure says it happened
 unsigned long h_msg_where(const char* file, unsigned long line, char* outFile, char* outTest, unsigned long cap)
